@@ -12,6 +12,8 @@ From CF Require Import C15.Proofs_bs.
 From CF Require Import C15.Proofs_pose.
 From CF Require Import C15.Proofs_sum.
 From CF Require Import C15.Examples.
+From CF Require Import C15.Heap.
+From CF Require Import C15.Proofs_heap.
 Import ListNotations.
 Open Scope R_scope.
 
@@ -142,3 +144,36 @@ Theorem C15_ippe_permutation_inverse : forall v a t u,
   (let i := rotate_vector_to_ippe v in (vx i / vz i, vy i / vz i) = q_to_ippe (vy v / vx v) (vz v / vx v)).
 Proof. exact ippe_all. Qed.
 Print Assumptions C15_ippe_permutation_inverse.
+
+(* ---- objects, not values: a Pose is a mutable object (scale() changes it in place).  Freshness contract of the
+        two composition methods on the object heap of C15/Heap.v: the result is a NEW object for every operand pair
+        (the identity pose included), no old object changes, and the new object holds the composed value *)
+Theorem C15_compose_fresh : forall f h a b h' c, op_alloc f h a b = Some (h', c) ->
+  exists A B, hget h a = Some A /\ hget h b = Some B /\
+    c <> a /\ c <> b /\ hget h c = None /\
+    (forall l, (l < length h)%nat -> hget h' l = hget h l) /\
+    hget h' c = Some (f A B).
+Proof. exact op_alloc_fresh. Qed.
+Print Assumptions C15_compose_fresh.
+
+(* hence the in-place scale() the library applies to products leaves both operands unchanged, and the rigid-motion
+   laws keep holding for the operands *)
+Theorem C15_scale_product_keeps_operands : forall h a b h' c k h'',
+  compose_alloc h a b = Some (h', c) -> scale_inplace h' c k = Some h'' ->
+  exists A B, hget h'' a = Some A /\ hget h'' b = Some B /\ hget h a = Some A /\ hget h b = Some B /\
+    hget h'' c = Some (pscale k (rotate_translate_pose A B)) /\
+    (forall x, rotate_translate (rotate_translate_pose A B) x = rotate_translate A (rotate_translate B x)) /\
+    (valid_pose B -> forall x, inv_rotate_translate B (rotate_translate B x) = x).
+Proof. exact compose_then_scale_laws. Qed.
+Print Assumptions C15_scale_product_keeps_operands.
+
+(* a composition with an identity fast path (returns an operand instead of a new object) is right by value at the
+   time of the call, but scaling the product rewrites the operand: concrete heap *)
+Theorem C15_identity_fastpath_refuted :
+  (forall h a b h' c, compose_fastpath is_pose_id h a b = Some (h', c) ->
+     exists A B, hget h a = Some A /\ hget h b = Some B /\ hget h' c = Some (rotate_translate_pose A B)) /\
+  (exists (h : heap) (a b : loc) (k : R) h' c h'',
+     compose_fastpath is_pose_id h a b = Some (h', c) /\ scale_inplace h' c k = Some h'' /\
+     c = a /\ hget h'' a <> hget h a).
+Proof. exact fastpath_summary. Qed.
+Print Assumptions C15_identity_fastpath_refuted.
